@@ -160,4 +160,16 @@ PROPS = {
         ],
         assumptions=["fragments are identified by text and position; two input fragments with the same text at the same position are indistinguishable for the tie"],
     ),
+    "C03": dict(
+        gen=["globals"],
+        race=True,
+        trusted=[
+            "the statement 'no state is shared between calls' is decided on the source: tools/gotrans (generator globals) parses every non-test file of every library package of /repo and lists the package-level variables that are assigned, incremented, appended to, have an element or field written or their address taken outside init (GenGlobals.mutable_globals) and those on which methods are called (globals_with_method_calls); the theorems C03_no_package_level_variable_is_written_outside_init and C03_only_the_detector_registry_has_methods_called are closed by reflexivity on the regenerated file, so a new mutable package variable breaks them; the harness then replays the cross-parse scenario of the property (operand-only content stream, then another) as the failing input",
+            "given per-call state only, the model is n extractions each stepping its own component of the system state under an arbitrary schedule (interleaving_cannot_be_observed, alone_or_among_others), a process state G that calls do not write (history_cannot_be_observed, repeated_calls_agree), and registries filled in an arbitrary permutation of a map's entries (map_iteration_order_cannot_be_observed: unique keys)",
+            "what the scan cannot see - writes through a pointer obtained from an accessor, state inside third-party packages, sync.Pool reuse, map iteration order reaching the output - is covered dynamically: every generated document of every format and its truncated / mid-operand-corrupted copies are extracted repeatedly, in random orders and concurrently on 8-16 goroutines in a binary built with go build -race; any WARNING: DATA RACE in the output is a violation, as is any digest that differs from the first run",
+            "tables.globalRegistry (the one global with method calls) is written only by the exported RegisterDetector, under its own mutex; extractions only read it; registering detectors while extracting is outside the property",
+            "NOT modelled: the Go memory model and the scheduler (the race detector observes the explored interleavings only), the readers' internal state machines (modelled in C01, C04-C19)",
+        ],
+        assumptions=["the scan is syntactic: identifiers resolved per package by name, shadowing by a local of the same name is treated as the local"],
+    ),
 }
